@@ -93,13 +93,27 @@ def run(repo: Repo, rep: Report, tier: str) -> None:
         ok = bool(flags) and any(t == f"isinstance({operand}, SignalRef)" and pol for t, pol in cguards_any(m, flags[0]))
         rep.check(ok, "C02-R2", f"{name} flags wire separation when `{operand}` is a signal", norm(flags[0]) if flags else "flag never set", m.loc())
     ep = repo.cls("EntityPlacer")
+    rep.rule("C02-R14", "a wildcard compared with a signal does not count that signal: `any(b) CMP k` / `all(b) CMP k` is a decider whose first operand is signal-anything / "
+             "signal-everything; the placement raises the separation flag for it, and the planner then brings the scalar in on green as it does for a bundle filter")
     pa = ep.methods["_place_arithmetic"]
     c = calls_in(pa.node, "create_and_add_placement")
     rep.check(bool(c) and norm(kwarg(c[0], "needs_wire_separation")) == "op.needs_wire_separation", "C02-R2", "_place_arithmetic forwards the flag", norm(kwarg(c[0], "needs_wire_separation")) if c else "", pa.loc())
     pd = ep.methods["_place_single_condition_decider"]
     c = calls_in(pd.node, "create_and_add_placement")
-    ok = bool(c) and canon(pd).text(kwarg(c[0], "needs_wire_separation")).startswith("op.debug_metadata.get('needs_wire_separation'")
-    rep.check(ok, "C02-R2", "_place_single_condition_decider forwards the flag from the node's metadata", "", pd.loc())
+    alts_f = canon(pd).alts(kwarg(c[0], "needs_wire_separation"), c[0]) if c else []
+    META_F = "op.debug_metadata.get('needs_wire_separation'"
+    # the placement may raise the flag on its own (a literal True on some path); it never lowers what the node asked for
+    ok = bool(alts_f) and any(a.startswith(META_F) for a in alts_f) and all(a.startswith(META_F) or a == "True" for a in alts_f)
+    rep.check(ok, "C02-R2", "_place_single_condition_decider forwards the flag from the node's metadata", "; ".join(a[:50] for a in alts_f), pd.loc())
+    # any(bundle) / all(bundle) compared with a signal: the wildcard counts every signal on the wire, the scalar included, unless the two are separated
+    raises = []
+    for iff in [n for n in walk_local(pd.node) if isinstance(n, ast.If)]:
+        t = norm(iff.test)
+        if "signal-anything" in t and "signal-everything" in t and "isinstance(right_operand, str)" in t \
+                and any(isinstance(b, ast.Assign) and "needs_wire_separation" in norm(b.targets[0]) and norm(b.value) == "True" for b in iff.body):
+            raises.append(iff)
+    rep.check(bool(raises), "C02-R14", "_place_single_condition_decider separates a wildcard comparison from its scalar", "flag raised for (anything|everything CMP signal)" if raises else
+              "`all(b) > k` is placed without wire separation: k travels on the bundle's wire and is counted as a member (all(b) > 3 is false for b = {5, 7} and k = 3)", pd.loc())
     from ..core import module_const as mc
     WC = tuple(mc(repo, repo.module("layout.wire_router"), "WIRE_COLORS"))
     default = WC[0]
